@@ -179,5 +179,7 @@ PROPS["C18"]["tasks"].append("json_extends")
 PROPS["C10"]["tasks"] += SKELETON
 PROPS["C05"]["tasks"] += RUNNER_ELEMS
 PROPS["C06"]["tasks"] += SKELETON + ["SequentialRunner._generate_sessions[session]"]
+for _p in ("C01", "C02", "C03", "C04", "C05", "C06", "C08", "C09", "C13", "C16"):
+    PROPS[_p]["tasks"].append("census:writers")
 for k in PROPS:
     NOT_CLAIMED.pop(k, None)
